@@ -582,7 +582,6 @@ func (cl *cloner) clone(v Value) Value {
 	return v
 }
 
-
 // storeMonitored overwrites *addr field by field, telling the frame monitor about every cell.
 func (e *Exec) storeMonitored(addr *Value, v Value) {
 	if dst, ok := (*addr).(Structure); ok {
